@@ -17,8 +17,9 @@ fn garbage() -> Vec<&'static str> {
 }
 fn opts(i: usize) -> Options { if i == 0 { Options::default() } else { Options::elisp() } }
 
-fn cases(_ob: &str) -> Vec<String> {
+fn cases(ob: &str) -> Vec<String> {
     let mut out = vec![];
+    if let Some(seed) = crate::gen::thorough_seed(ob) { for t in crate::gen::texts(seed ^ 19, 400, true) { for o in 0..2 { out.push(format!("locx:{}:{}", crate::hex(t.as_bytes()), o)); } } }
     for i in 0..valid().len() { out.push(format!("prefix:{}:0", i)); }
     for t in ["(a b)", "\"ab\"", "?a", "\"\\u03bb\"", "[1 2]", "(a . b)", "1.5e3"] { out.push(format!("eprefix:{}", crate::hex(t.as_bytes()))); }
     for i in 0..garbage().len() { for o in 0..2 { out.push(format!("loc:{}:{}", i, o)); } }
@@ -74,8 +75,8 @@ fn check(case: &str) -> Option<String> {
                 Ok(v) => Some(format!("reader failing at offset {} parsed as {}", at, v)),
             }
         }
-        "loc" => {
-            let text = garbage().get(p.get(1)?.parse::<usize>().ok()?)?.as_bytes().to_vec();
+        "loc" | "locx" => {
+            let text = if p[0] == "locx" { crate::unhex(p.get(1)?) } else { garbage().get(p.get(1)?.parse::<usize>().ok()?)?.as_bytes().to_vec() };
             let o = opts(p.get(2)?.parse::<usize>().ok()?);
             LAST_OPTS.with(|x| *x.borrow_mut() = o.clone());
             for src in 0..3 {
